@@ -162,7 +162,7 @@ def configs():
     scopes4 = ["data", "local", "global", "extra"]
     subsets = [list(c) for n in range(5) for c in itertools.combinations(scopes4, n)]
     for k in range(4):
-        for name in ("wz", "scale", "Sum", "abs"):  # 'abs' is a Python builtin: it is NOT one of the five scopes
+        for name in ("wz", "scale", "Sum", "abs", "true", "NONE"):  # 'abs' is a Python builtin: it is NOT one of the five scopes; 'true' / 'NONE' are names, not literals
             for sub in subsets:
                 out.append({"role": "arg", "name": name, "k": k, "subset": sub})
                 if any(s in sub for s in ("local", "global", "extra")):
